@@ -29,6 +29,8 @@ from typing import Dict, List, Optional, Set, Tuple
 from .model import ClassInfo, FunctionInfo, Model
 
 TMP = "__qcl_t"
+# iterators of the graph API that the rules name as domains ("all nodes in listing order"); they are read on their own (C02.L1) and stay calls
+API_ITERATORS = ("get_node_iterator", "get_branch_iterator")
 
 
 def _is_private(name: str) -> bool:
@@ -134,7 +136,7 @@ class _Ctx:
                 if len(fs) == 1 and fs[0].kind in ("method", "staticmethod", "classmethod"):
                     d = fs[0].node
         if d is not None and any(isinstance(n, (ast.Yield, ast.YieldFrom)) for n in ast.walk(d)) and d is not (self.fn.node if self.fn else None):
-            if any(k.split(".")[-1] == d.name for k in self.keep):
+            if any(k.split(".")[-1] == d.name for k in self.keep) or d.name in API_ITERATORS:
                 return None
             return d
         return None
